@@ -46,6 +46,7 @@ static const char *code_name(int code) {
   case JERR_BAD_DCT_COEF: return "BAD_DCT_COEF";
   case JERR_HUFF_MISSING_CODE: return "HUFF_MISSING_CODE";
   case JERR_NOT_COMPILED: return "NOT_COMPILED";
+  case JERR_CANT_SUSPEND: return "CANT_SUSPEND";
   case JERR_BAD_HUFF_TABLE: return "BAD_HUFF_TABLE";
   case JERR_HUFF_CLEN_OVERFLOW: return "HUFF_CLEN_OVERFLOW";
   case JERR_FRACT_SAMPLE_NOTIMPL: return "FRACT_SAMPLE_NOTIMPL";
@@ -224,15 +225,44 @@ static int s_feed(struct susp_src *s) {
   return 1;
 }
 
+/* a stdio-like source: every refill copies the next `chunk` bytes into a private buffer that is followed
+ * by poison bytes, so that a decoder reading past bytes_in_buffer does not see the true continuation */
+struct copy_src { struct jpeg_source_mgr pub; const unsigned char *data; size_t size, pos, chunk; unsigned char *buf; };
+#define COPY_PAD 8192
+static boolean c_fill(j_decompress_ptr c) {
+  struct copy_src *s = (struct copy_src *)c->src;
+  size_t n = s->size - s->pos < s->chunk ? s->size - s->pos : s->chunk;
+  if (n == 0) { s->buf[0] = 0xFF; s->buf[1] = JPEG_EOI; n = 2; }
+  else { memcpy(s->buf, s->data + s->pos, n); s->pos += n; }
+  memset(s->buf + n, 0xA5, COPY_PAD);
+  s->pub.next_input_byte = s->buf; s->pub.bytes_in_buffer = n;
+  return TRUE;
+}
+static void c_skip(j_decompress_ptr c, long n) {
+  struct copy_src *s = (struct copy_src *)c->src;
+  if (n <= 0) return;
+  while (n > (long)s->pub.bytes_in_buffer) { n -= (long)s->pub.bytes_in_buffer; c_fill(c); }
+  s->pub.next_input_byte += n; s->pub.bytes_in_buffer -= n;
+}
+static int g_copy_mode = 0;     /* readback(): chunk > 0 means copy_src refills instead of a suspending source */
+
 /* chunk == 0: one memory buffer; chunk > 0: suspending source refilled `chunk` bytes at a time */
 static int readback(unsigned char *jpg, unsigned long size, struct image *im, char *msg, size_t msgsz, long *warn, size_t chunk) {
   struct jpeg_decompress_struct di; struct my_err err; jvirt_barray_ptr *arr; int c, res = 1;
-  struct susp_src ss;
+  struct susp_src ss; struct copy_src cs; unsigned char *volatile cbuf = NULL;
   memset(&di, 0, sizeof di);
   di.err = jpeg_std_error(&err.pub); err.pub.error_exit = my_exit; err.pub.emit_message = my_emit;
-  if (setjmp(err.jb)) { snprintf(msg, msgsz, "decode-error:%s", code_name(err.code)); jpeg_destroy_decompress(&di); return -1; }
+  if (setjmp(err.jb)) { snprintf(msg, msgsz, "decode-error:%s", code_name(err.code)); jpeg_destroy_decompress(&di); free(cbuf); return -1; }
   jpeg_create_decompress(&di);
-  if (chunk == 0) {
+  if (chunk > 0 && g_copy_mode) {
+    memset(&cs, 0, sizeof cs); cbuf = malloc(chunk + COPY_PAD + 16);
+    cs.pub.init_source = s_init; cs.pub.fill_input_buffer = c_fill; cs.pub.skip_input_data = c_skip;
+    cs.pub.resync_to_restart = jpeg_resync_to_restart; cs.pub.term_source = s_term;
+    cs.data = jpg; cs.size = size; cs.chunk = chunk; cs.buf = cbuf; cs.pub.next_input_byte = cbuf; cs.pub.bytes_in_buffer = 0;
+    di.src = &cs.pub;
+    jpeg_read_header(&di, TRUE);
+    arr = jpeg_read_coefficients(&di);
+  } else if (chunk == 0) {
     jpeg_mem_src(&di, jpg, size);
     jpeg_read_header(&di, TRUE);
     arr = jpeg_read_coefficients(&di);
@@ -265,10 +295,11 @@ static int readback(unsigned char *jpg, unsigned long size, struct image *im, ch
     }
   }
   *warn = di.err->num_warnings;
-  if (chunk == 0) jpeg_finish_decompress(&di);
+  if (chunk == 0 || g_copy_mode) jpeg_finish_decompress(&di);
   else while (!jpeg_finish_decompress(&di)) if (!s_feed(&ss)) break;
   *warn = di.err->num_warnings;
   jpeg_destroy_decompress(&di);
+  free(cbuf);
   return res;
 }
 
@@ -433,6 +464,16 @@ static void do_img(char *line) {
         }
         if (na) printf(" su=na"); else if (!bad) printf(" su=1");
       }
+      { /* the same file through a refilling (stdio-like) source: 4096-byte and odd-sized chunks */
+        static const size_t cks[] = { 4096, 513, 600, 777, 1031, 2048 }; int q, bad = 0;
+        g_copy_mode = 1;
+        for (q = 0; q < (cf->nosu ? 1 : 6) && !bad; q++) {
+          char m2[128]; long w2 = 0; int r2 = readback(out, outsize, &im, m2, sizeof m2, &w2, cks[q]);
+          if (r2 != 1 || w2 != 0) { printf(" ck=0@chunk%d:%s:w%ld", (int)cks[q], r2 == 1 ? "warn" : m2, w2); bad = 1; }
+        }
+        g_copy_mode = 0;
+        if (!bad) printf(" ck=1");
+      }
       if (cf->nobi) printf(" bi=skip");
       else { int pc = 0, np = 0; uint64_t hb = 0;
         if (pixels_buffered(out, outsize, im.P, &hb, &pc, &np)) printf(" bi=error:%s", code_name(pc));
@@ -448,6 +489,99 @@ static void do_img(char *line) {
   for (c = 0; c < im.NC; c++) free(im.coef[c]);
 }
 
+/* pix NC W H Q seed | h0 v0 h1 v1 .. | cfg | size size ...   (8-bit samples from an LCG: smooth ramp + noise)
+ * compresses once into one big buffer and once per listed size through a SUSPENDING destination of that size
+ * (empty_output_buffer returns FALSE; the application drains the buffer and calls jpeg_write_scanlines again);
+ * -> "ok <bytes> <hash> | <size>=eq | <size>=ne@<offset> | <size>=stuck | <size>=err:<CODE>" */
+struct sdest { struct jpeg_destination_mgr pub; unsigned char *buf; size_t size; unsigned char *out; size_t outlen, outcap; long nsusp; };
+static void sd_init(j_compress_ptr c) { struct sdest *d = (struct sdest *)c->dest; d->pub.next_output_byte = d->buf; d->pub.free_in_buffer = d->size; }
+static boolean sd_empty(j_compress_ptr c) { ((struct sdest *)c->dest)->nsusp++; return FALSE; }
+static void sd_drain(struct sdest *d) {
+  size_t n = d->size - d->pub.free_in_buffer;
+  if (d->outlen + n > d->outcap) { d->outcap = (d->outlen + n) * 2 + 1024; d->out = realloc(d->out, d->outcap); }
+  memcpy(d->out + d->outlen, d->buf, n); d->outlen += n;
+  d->pub.next_output_byte = d->buf; d->pub.free_in_buffer = d->size;
+}
+static void sd_term(j_compress_ptr c) { sd_drain((struct sdest *)c->dest); }
+
+static int pix_compress(int NC, int W, int H, int Q, unsigned seed, int *hs, int *vs, struct cfg *cf, size_t bufsize,
+                        unsigned char **out, size_t *outlen, int *code) {
+  struct jpeg_compress_struct ci; struct my_err err; struct sdest sd; unsigned char *volatile row = NULL; unsigned char *volatile bigbuf = NULL;
+  unsigned long mlen = 0; unsigned char *mout = NULL; int c; unsigned st = seed * 2654435761u + 12345u; int stuck = 0;
+  memset(&ci, 0, sizeof ci); memset(&sd, 0, sizeof sd);
+  ci.err = jpeg_std_error(&err.pub); err.pub.error_exit = my_exit; err.pub.emit_message = my_emit;
+  if (setjmp(err.jb)) { *code = err.code; jpeg_destroy_compress(&ci); free(row); free(sd.buf); free(sd.out); return 1; }
+  jpeg_create_compress(&ci);
+  if (bufsize == 0) { mout = initbuf; mlen = sizeof initbuf; jpeg_mem_dest(&ci, &mout, &mlen); }
+  else {
+    sd.buf = malloc(bufsize + (1 << 16)); sd.size = bufsize + (1 << 16);   /* headers cannot suspend: roomy buffer for jpeg_start_compress */
+    sd.pub.init_destination = sd_init; sd.pub.empty_output_buffer = sd_empty; sd.pub.term_destination = sd_term;
+    ci.dest = &sd.pub;
+  }
+  ci.image_width = W; ci.image_height = H; ci.input_components = NC;
+  ci.in_color_space = NC == 1 ? JCS_GRAYSCALE : NC == 3 ? JCS_YCbCr : JCS_UNKNOWN;
+  jpeg_set_defaults(&ci);
+  jpeg_set_quality(&ci, Q, TRUE);
+  for (c = 0; c < NC; c++) { ci.comp_info[c].h_samp_factor = hs[c]; ci.comp_info[c].v_samp_factor = vs[c]; }
+  apply_cfg(&ci, cf);
+  jpeg_start_compress(&ci, TRUE);
+  /* frame/scan headers are written inside the first jpeg_write_scanlines call (pass_startup): keep the roomy buffer for it */
+  row = malloc((size_t)W * NC + 16);
+  while (ci.next_scanline < ci.image_height) {
+    JSAMPROW rp = (JSAMPROW)row; int x, tries = 0; unsigned y = ci.next_scanline; unsigned st2 = st + y * 7919u;
+    for (x = 0; x < W * NC; x++) { st2 = st2 * 1664525u + 1013904223u; row[x] = (unsigned char)(((x / NC) * 3 + y * 2 + ((st2 >> 24) & 31)) & 255); }
+    while (jpeg_write_scanlines(&ci, &rp, 1) == 0) {
+      if (!bufsize || ++tries > 4) { stuck = 1; break; }
+      if (sd.pub.free_in_buffer == sd.size && tries > 1) { stuck = 1; break; }   /* an MCU does not fit: no progress */
+      sd_drain(&sd);
+    }
+    if (stuck) break;
+    if (bufsize && sd.size != bufsize) {   /* from here on: the small buffer */
+      sd_drain(&sd); sd.size = bufsize; sd.pub.next_output_byte = sd.buf; sd.pub.free_in_buffer = sd.size;
+    }
+  }
+  if (stuck) { jpeg_abort_compress(&ci); jpeg_destroy_compress(&ci); free(row); free(sd.buf); free(sd.out); return 2; }
+  if (bufsize) {
+    /* jpeg_finish_compress cannot suspend: give it room (drain first, then a large final buffer) */
+    sd_drain(&sd);
+    bigbuf = malloc(1 << 22); free(sd.buf); sd.buf = bigbuf; sd.size = 1 << 22; sd.pub.next_output_byte = sd.buf; sd.pub.free_in_buffer = sd.size;
+  }
+  jpeg_finish_compress(&ci);
+  jpeg_destroy_compress(&ci);
+  free(row);
+  if (bufsize) { *out = sd.out; *outlen = sd.outlen; free(sd.buf); }
+  else { *out = malloc(mlen ? mlen : 1); memcpy(*out, mout, mlen); *outlen = mlen; if (mout != initbuf) free(mout); }
+  return 0;
+}
+
+static void do_pix(char *line) {
+  char *sec[4], *p = line + 4, *save, *t; int i, NC, W, H, Q, hs[MAXC], vs[MAXC], code = 0; unsigned seed;
+  struct cfg *cf = malloc(sizeof *cf); unsigned char *ref = NULL; size_t reflen = 0;
+  for (i = 0; i < 4; i++) { sec[i] = p; p = strchr(p, '|'); if (!p) { if (i < 3) { puts("?"); free(cf); return; } break; } *p++ = 0; }
+  if (sscanf(sec[0], "%d %d %d %d %u", &NC, &W, &H, &Q, &seed) != 5 || NC < 1 || NC > 4) { puts("?"); free(cf); return; }
+  t = strtok_r(sec[1], " \t", &save);
+  for (i = 0; i < NC; i++) { hs[i] = t ? atoi(t) : 1; t = strtok_r(NULL, " \t", &save); vs[i] = t ? atoi(t) : 1; t = strtok_r(NULL, " \t", &save); }
+  parse_cfg(sec[2], cf);
+  if (pix_compress(NC, W, H, Q, seed, hs, vs, cf, 0, &ref, &reflen, &code)) { printf("err %s\n", code_name(code)); free(cf); return; }
+  { uint64_t h = 1469598103934665603ULL; size_t j; for (j = 0; j < reflen; j++) { h ^= ref[j]; h *= 1099511628211ULL; }
+    printf("ok %lu %016llx", (unsigned long)reflen, (unsigned long long)h); }
+  for (t = strtok_r(sec[3], " \t", &save); t; t = strtok_r(NULL, " \t", &save)) {
+    size_t bs = (size_t)atol(t), olen = 0, j; unsigned char *o = NULL; int rc;
+    if (!bs) continue;
+    rc = pix_compress(NC, W, H, Q, seed, hs, vs, cf, bs, &o, &olen, &code);
+    if (rc == 1) printf(" | %lu=err:%s", (unsigned long)bs, code_name(code));
+    else if (rc == 2) printf(" | %lu=stuck", (unsigned long)bs);
+    else {
+      for (j = 0; j < olen && j < reflen && o[j] == ref[j]; j++) ;
+      if (olen == reflen && j == olen) printf(" | %lu=eq", (unsigned long)bs);
+      else printf(" | %lu=ne@%lu(len %lu vs %lu)", (unsigned long)bs, (unsigned long)j, (unsigned long)olen, (unsigned long)reflen);
+      free(o);
+    }
+  }
+  putchar('\n');
+  free(ref); free(cf);
+}
+
 int main(void) {
   char *line = NULL; size_t cap = 0; ssize_t n;
   setvbuf(stdout, NULL, _IOLBF, 0);
@@ -455,6 +589,7 @@ int main(void) {
     if (line[n - 1] == '\n') line[n - 1] = 0;
     if (!strncmp(line, "img ", 4)) do_img(line);
     else if (!strncmp(line, "script ", 7)) do_script(line);
+    else if (!strncmp(line, "pix ", 4)) do_pix(line);
     else puts("?");
   }
   free(line);
